@@ -69,12 +69,20 @@ pub fn strategy() -> BoxedStrategy<Case> {
     let holder = (
         issue_spec_strategy(ClaimCfg::SHORT_F64, HONEST_PATHS, holder_strategy()),
         vec(
-            (choices_strategy(), prop::option::weighted(0.5, (aud_nonce_strategy(), aud_nonce_strategy())), 0u8..13, any::<u8>()),
+            (choices_strategy(), prop::option::weighted(0.5, (aud_nonce_strategy(), aud_nonce_strategy())), 0u8..14, any::<u8>()),
             1..=8,
         ),
     )
         .prop_map(|(issue, raw_ops)| {
             let mut prev_good: Option<serde_json::Map<String, Value>> = None;
+            let mut prev_kb: Option<KbArgs> = None;
+            let other_key = |k: HolderKey| match k {
+                HolderKey::Ec | HolderKey::EcKid => HolderKey::Ec2,
+                HolderKey::Ec2 => HolderKey::Ec,
+                HolderKey::Ed => HolderKey::Ed2,
+                HolderKey::Ed2 => HolderKey::Ed,
+                HolderKey::None => HolderKey::None,
+            };
             let ops = raw_ops
                 .into_iter()
                 .map(|(ch, kb, kind, bits)| {
@@ -82,10 +90,21 @@ pub fn strategy() -> BoxedStrategy<Case> {
                     match kind {
                         // the previous good selection again, members in reverse order, key-bound
                         // with fresh aud / nonce: same disclosure set, other order
+                        // the previous key-bound call once more, every argument equal except the
+                        // signing key (another key of the same family): the KB-JWT must be made anew
+                        13 if prev_good.is_some() && prev_kb.is_some() => {
+                            let p = prev_kb.clone().unwrap();
+                            let kb = KbArgs { key: other_key(p.key), ..p };
+                            prev_kb = Some(kb.clone());
+                            HolderOp::Good { selection: prev_good.clone().unwrap(), kb: Some(kb) }
+                        }
                         11 | 12 if prev_good.is_some() => {
                             let selection = sdjwt_model::derive::reverse_members(prev_good.as_ref().unwrap());
                             let kb = if issue.holder.is_some() { Some(KbArgs { default_alg: bits & 1 == 1, aud: format!("https://rp{}.example", bits), nonce: format!("n-{}", bits), key: issue.holder }) } else { None };
                             prev_good = Some(selection.clone());
+                            if kb.is_some() {
+                                prev_kb = kb.clone();
+                            }
                             HolderOp::Good { selection, kb }
                         }
                         0 => {
@@ -111,6 +130,9 @@ pub fn strategy() -> BoxedStrategy<Case> {
                         _ => {
                             let kb = if issue.holder.is_some() { kb.map(|(aud, nonce)| KbArgs { default_alg: nonce.chars().count() % 2 == 1, aud, nonce, key: issue.holder }) } else { None };
                             prev_good = Some(selection.clone());
+                            if kb.is_some() {
+                                prev_kb = kb.clone();
+                            }
                             HolderOp::Good { selection, kb }
                         }
                     }
